@@ -17,6 +17,8 @@ func init() {
 	verifHarnesses["VerifHarness_C17_sequence"] = VerifHarness_C17_sequence
 	verifHarnesses["VerifHarness_C18"] = VerifHarness_C18
 	verifHarnesses["VerifHarness_C19"] = VerifHarness_C19
+	verifHarnesses["VerifHarness_C19_history"] = VerifHarness_C19_history
+	verifHarnesses["VerifHarness_C18_history"] = VerifHarness_C18_history
 }
 
 type awsWorld struct {
@@ -25,6 +27,7 @@ type awsWorld struct {
 	EC2 *VerifEC2
 	asg *VerifASG
 	ng  *NodeGroup
+	cp  *CloudProvider
 }
 
 func newAWSWorld(min, max, desired int64, instances int, cfg cloudprovider.AWSNodeGroupConfig) *awsWorld {
@@ -44,7 +47,7 @@ func newAWSWorld(min, max, desired int64, instances int, cfg cloudprovider.AWSNo
 	if !ok {
 		panic("node group not registered")
 	}
-	return &awsWorld{J: j, AS: as, EC2: ec2, asg: asg, ng: ng.(*NodeGroup)}
+	return &awsWorld{J: j, AS: as, EC2: ec2, asg: asg, ng: ng.(*NodeGroup), cp: cloud}
 }
 
 func (w *awsWorld) count(kind string) int {
@@ -389,5 +392,178 @@ func VerifHarness_C17_sequence() {
 	verifAssert("C17.sequence-error-iff-rejected", verifImplies(verifNot(legal), err2 != nil))
 	if err1 != nil {
 		verifReachIf("C17.second-scale-up-after-rejected-first", legal)
+	}
+}
+
+
+// awsNode builds the Node object backed by instance id.
+func awsNode(name, id string) *v1.Node {
+	n := &v1.Node{}
+	n.Name = name
+	n.Spec.ProviderID = "aws:///az/" + id
+	return n
+}
+
+// VerifHarness_C19_history: the same removal contract after the node group object has a past.
+// mode 0: an earlier scan looked nodes up and removed one; then instances leave and join the
+//   cloud group one for one (same size), the provider refreshes, and a batch is removed:
+//   membership is that of the current scan.
+// mode 1: an earlier batch of the same run failed midway (some instances terminated, the cloud
+//   already decremented); the next batch is judged against what the cloud holds now.
+// shape: [instances, nodes passed, mode]
+func VerifHarness_C19_history() {
+	I, K, mode := verifShape(0), verifShape(1), verifShape(2)
+	min := verifInt("min", 0, int64(I))
+	w := newAWSWorld(min, int64(I)+3, int64(I), I, cloudprovider.AWSNodeGroupConfig{})
+	ids := make([]string, I) // current members
+	for k := range ids {
+		ids[k] = "i-" + strconv.Itoa(k)
+	}
+	var departed []string
+	switch mode {
+	case 0:
+		_ = w.ng.Belongs(awsNode("probe", ids[0]))
+		_ = w.ng.DeleteNodes(awsNode("old", ids[I-1])) // may be refused by the minimum; either way the object has been used
+		// between scans: every instance the harness picks is replaced one for one
+		for k := 0; k < I; k++ {
+			if verifChoice("replaced"+strconv.Itoa(k), 2) == 1 {
+				departed = append(departed, ids[k])
+				ids[k] = "i-r" + strconv.Itoa(k)
+			}
+		}
+		w.asg.Instances = nil
+		for _, id := range ids {
+			w.asg.Instances = append(w.asg.Instances, VerifInstance{ID: id, AZ: "az"})
+		}
+		w.asg.Desired = int64(I)
+		verifAssert("C19.harness-refresh", w.cp.Refresh() == nil)
+		ng, _ := w.cp.GetNodeGroup("asg0")
+		w.ng = ng.(*NodeGroup)
+		if len(departed) > 0 {
+			verifReach("C19.membership-changed-at-equal-size")
+		}
+	case 1:
+		// an earlier batch of two whose second termination is rejected
+		w.asg.Desired = int64(I) + 2
+		w.asg.Instances = append(w.asg.Instances, VerifInstance{ID: "i-e0", AZ: "az"}, VerifInstance{ID: "i-e1", AZ: "az"})
+		verifAssert("C19.harness-refresh", w.cp.Refresh() == nil)
+		ng, _ := w.cp.GetNodeGroup("asg0")
+		w.ng = ng.(*NodeGroup)
+		w.AS.termFailAt = w.AS.termCalls + 2
+		err0 := w.ng.DeleteNodes(awsNode("e0", "i-e0"), awsNode("e1", "i-e1"))
+		w.AS.termFailAt = 0
+		if err0 != nil && w.asg.Desired == int64(I)+1 {
+			verifReach("C19.earlier-batch-failed-midway")
+		}
+		// (the controller's batches of one scan are disjoint: the instances of the earlier batch are not passed again)
+	}
+	// the batch under test: K distinct nodes, each a current member or one that is not (any more)
+	desired := w.asg.Desired
+	var nodes []*v1.Node
+	var want []string
+	foreignAt := -1
+	for k := 0; k < K; k++ {
+		ks := strconv.Itoa(k)
+		which := verifChoice("node"+ks, I+1) // I = not a member
+		id := "i-foreign" + ks
+		if which < I {
+			id = ids[which]
+		} else {
+			if len(departed) > 0 {
+				id = departed[0]
+			}
+			if foreignAt < 0 {
+				foreignAt = k
+			}
+		}
+		for _, prev := range want {
+			if prev == id {
+				verifAssume(false) // one instance backs one node
+			}
+		}
+		nodes = append(nodes, awsNode("n"+ks, id))
+		want = append(want, id)
+	}
+	mark := len(w.J.Calls)
+	err := w.ng.DeleteNodes(nodes...)
+	allowed := verifAnd(desired > min, desired-int64(K) >= min)
+	terms := 0
+	for _, e := range w.J.Calls[mark:] {
+		switch e.Kind {
+		case "Terminate":
+			verifAssert("C19.only-when-minimum-respected", allowed)
+			verifAssert("C19.with-decrement", e.Flag)
+			if terms < K {
+				verifAssert("C19.terminates-the-given-nodes-in-order", e.Instance == want[terms])
+				verifAssert("C19.stops-at-foreign-node", foreignAt < 0 || terms < foreignAt)
+			}
+			terms++
+		default:
+			verifAssert("C19.no-other-write", !isAWSWrite(e.Kind))
+		}
+	}
+	verifAssert("C19.at-most-the-batch", terms <= K)
+	verifAssert("C19.never-below-minimum", verifImplies(terms > 0, int64(terms) <= desired-min))
+	verifAssert("C19.refuses-whole-request", verifImplies(verifNot(allowed), verifAnd(terms == 0, err != nil)))
+	if foreignAt >= 0 {
+		_, isNotInGroup := err.(*cloudprovider.NodeNotInNodeGroup)
+		verifAssert("C19.foreign-node-error", verifImplies(allowed, isNotInGroup))
+		verifReachIf("C19.foreign", allowed)
+	} else {
+		verifAssert("C19.complete-batch", verifImplies(allowed, verifAnd(terms == K, err == nil)))
+		verifReachIf("C19.complete", verifAnd(allowed, K > 0))
+	}
+	verifReachIf("C19.refused", verifNot(allowed))
+}
+
+// VerifHarness_C18_history: the no-leak contract along a history of fleet scale-ups of one node
+// group object, and for a fleet request the cloud fills only in part.
+// Each attempt fails in a way the harness picks (never ready / k-th attach call fails); escalator
+// gives up (log.Fatal) after its documented number of consecutive failures -- also then every
+// acquired instance must have been attached or handed back first.
+// shape: [instances asked per attempt, attempts, partial fill (0/1)]
+func VerifHarness_C18_history() {
+	m, A, partial := verifShape(0), verifShape(1), verifShape(2)
+	batches := (m + batchSize - 1) / batchSize
+	cfg := cloudprovider.AWSNodeGroupConfig{LaunchTemplateID: "lt-1", LaunchTemplateVersion: "1", FleetInstanceReadyTimeout: 1500 * time.Millisecond}
+	w := newAWSWorld(0, int64(m*A)+10, 2, 0, cfg)
+	exited := false
+	for a := 1; a <= A && !exited; a++ {
+		as := "a" + strconv.Itoa(a) + "."
+		delivered := m
+		if partial == 1 {
+			// the cloud hands over fewer instances than asked for, together with an error entry
+			delivered = int(verifInt(as+"delivered", 1, int64(m)))
+			w.EC2.FleetSize = delivered
+			if delivered < m {
+				w.EC2.FleetErrors = 1
+			} else {
+				w.EC2.FleetErrors = 0
+			}
+		}
+		failure := verifChoice(as+"failure", 3) // 0 never ready, 1 k-th attach fails, 2 nothing fails
+		w.EC2.ReadyAfter, w.AS.AttachFailAt = 1, 0
+		w.EC2.polls = 0
+		switch failure {
+		case 0:
+			w.EC2.ReadyAfter = 0
+		case 1:
+			w.AS.AttachFailAt = w.AS.attachCalls + int(verifInt(as+"k", 1, int64(batches)))
+		}
+		mark := len(w.J.Calls)
+		var err error
+		fatal := verifCatchFatal(func() { err = w.ng.IncreaseSize(int64(m)) })
+		att, term := w.attachAlgebra("C18", mark)
+		verifAssert("C18.nothing-leaked", att+term == len(w.EC2.Fleet))
+		if fatal {
+			exited = true
+			verifReach("C18.gave-up-after-consecutive-failures")
+			verifAssert("C18.gives-up-only-after-three-failures", a >= 3)
+		} else if failure != 2 && att < len(w.EC2.Fleet) {
+			verifAssert("C18.failure-reported", err != nil)
+		}
+		if delivered < m {
+			verifReach("C18.partial-fill")
+		}
 	}
 }
